@@ -320,7 +320,9 @@ fn dec_value(bytes: &[u8], idx: &mut usize) -> Result<Value> {
         }
         4 => {
             let len = read_len(bytes, idx, info)? as usize;
-            let mut items = Vec::with_capacity(len);
+            // Every element occupies at least one byte: never pre-reserve more
+            // entries than the remaining input could hold.
+            let mut items = Vec::with_capacity(len.min(bytes.len().saturating_sub(*idx)));
             for _ in 0..len {
                 items.push(dec_value(bytes, idx)?);
             }
@@ -328,7 +330,8 @@ fn dec_value(bytes: &[u8], idx: &mut usize) -> Result<Value> {
         }
         5 => {
             let len = read_len(bytes, idx, info)? as usize;
-            let mut entries = Vec::with_capacity(len);
+            // Same bound as for arrays: a declared count cannot size the allocation.
+            let mut entries = Vec::with_capacity(len.min(bytes.len().saturating_sub(*idx)));
             let mut last_key: Option<Vec<u8>> = None;
             for _ in 0..len {
                 let key_start = *idx;
